@@ -19,6 +19,8 @@ def sx_nodes(ns):
 def sx_node(n):
     if n[0] == "flip":
         return "(flip %d)" % n[1]
+    if n[0] == "wait":
+        return "(wait %d %d)" % (n[1], n[2])
     if n[0] in ("sus", "scope"):
         return "(%s %d %s)" % (n[0], n[1], " ".join(sx_node(c) for c in n[2]))
     return "(%s %d %d)" % n
